@@ -245,12 +245,16 @@ fn add_stage(
         None => return Err(TyperError::PipelineEntryPointFunctionUnknown(location)),
     };
 
-    let function_impl = context
+    // The name may resolve to an intrinsic or to a function that was only declared
+    // Neither has a body that could be used as an entry point
+    let function_impl = match context
         .module
         .function_registry
         .get_function_implementation(func_id)
-        .as_ref()
-        .unwrap();
+    {
+        Some(function_impl) => function_impl,
+        None => return Err(TyperError::PipelineEntryPointFunctionUnknown(location)),
+    };
 
     for attribute in &function_impl.attributes.clone() {
         if let ir::FunctionAttribute::NumThreads(x, y, z) = attribute {
